@@ -498,15 +498,17 @@ impl G {
     // that goes away while its boundary stays is F-C04-5 (props/C04.known): the resource keeps the boundary's
     // `SuspenseContext` registered for one more fetch.
 
-    fn sleaf(&mut self, nres: usize, in_b: bool, in_row: bool) -> ViewD {
+    fn sleaf(&mut self, nres: usize, in_b: bool, in_row: bool, fixed: bool) -> ViewD {
         if in_b && self.r.chance(1, 2) {
             return ViewD::Aw(self.r.below(nres));
         }
-        if self.r.chance(1, 4) {
-            // a `Suspend` over a plain future picked by a signal
+        if fixed && self.r.chance(1, 3) {
+            // a `Suspend` over a plain future picked by a signal — at a place no enclosing effect re-renders or
+            // drops: a leaf nested in an inner effect of a region that is re-rendered stays alive until that inner
+            // effect's task is polled (F-C04-2's mechanism); notified meanwhile, it re-runs and starts a load that
+            // nobody aborts, and its boundary stays in the fallback until that load completes (F-C04-6, props/C04.known)
             let sigs = sig_ids(&self.defs);
-            let e = Expr::Rd(*self.r.pick(&sigs));
-            return ViewD::Lw(if in_row && self.r.chance(1, 2) { Expr::Add(Box::new(e), Box::new(Expr::Key)) } else { e });
+            return ViewD::Lw(Expr::Rd(*self.r.pick(&sigs)));
         }
         match self.r.below(3) {
             0 => ViewD::Text(self.word()),
@@ -520,10 +522,10 @@ impl G {
     /// `fixed`: no branch or row above (a `<Transition>` may sit here); `only_fixed`: below a `<Transition>`
     fn sview(&mut self, depth: usize, nres: usize, in_b: bool, fixed: bool, only_fixed: bool, in_row: bool) -> ViewD {
         if depth == 0 {
-            return self.sleaf(nres, in_b, in_row);
+            return self.sleaf(nres, in_b, in_row, fixed);
         }
         match self.r.below(16) {
-            0 | 1 => self.sleaf(nres, in_b, in_row),
+            0 | 1 => self.sleaf(nres, in_b, in_row, fixed),
             2 => ViewD::Elem(*self.r.pick(TAGS), self.attrs(), Box::new(self.sview(depth - 1, nres, in_b, fixed, only_fixed, in_row))),
             3 | 4 => ViewD::Seq(
                 Box::new(self.sview(depth - 1, nres, in_b, fixed, only_fixed, in_row)),
